@@ -351,63 +351,91 @@ BUDGET = [0]
 
 
 def _feasible(cons):
-    """cons: list of (coeffs dict atom->Fraction, const) meaning sum + const >= 0.  Rational feasibility."""
+    """cons: list of (coeffs dict atom->number, const) meaning sum + const >= 0.  Exact rational feasibility
+    (Fourier-Motzkin on integer-scaled rows, memoised)."""
     BUDGET[0] -= 1
     if BUDGET[0] < 0:
         raise Unsupported('proof budget exhausted')
-    cons = [(dict(c), Fraction(k)) for c, k in cons]
+    from math import gcd
+    names = sorted({a for c, k in cons for a, v in c.items() if v != 0})
+    idx = {a: i for i, a in enumerate(names)}
+    rows = set()
+    for c, k in cons:
+        den = 1
+        vals = list(c.values()) + [k]
+        for v in vals:
+            fv = Fraction(v)
+            den = den * fv.denominator // gcd(den, fv.denominator)
+        row = [0] * (len(names) + 1)
+        for a, v in c.items():
+            if v != 0:
+                row[idx[a]] = int(Fraction(v) * den)
+        row[-1] = int(Fraction(k) * den)
+        g = 0
+        for v in row:
+            g = gcd(g, abs(v))
+        if g > 1:
+            row = [v // g for v in row]
+        rows.add(tuple(row))
+    key = frozenset(rows)
+    hit = _FEAS_CACHE.get(key)
+    if hit is not None:
+        return hit
+    res = _fm(rows, len(names))
+    if len(_FEAS_CACHE) < 200000:
+        _FEAS_CACHE[key] = res
+    return res
+
+
+_FEAS_CACHE = {}
+
+
+def _fm(rows, n):
+    from math import gcd
+    rows = set(rows)
+    remaining = list(range(n))
     while True:
-        # drop trivial, detect contradiction
-        nxt = []
-        for c, k in cons:
-            c = {a: v for a, v in c.items() if v != 0}
-            if not c:
-                if k < 0:
+        nxt = set()
+        for r in rows:
+            if not any(r[:-1]):
+                if r[-1] < 0:
                     return False
                 continue
-            nxt.append((c, k))
-        cons = nxt
-        if not cons:
+            nxt.add(r)
+        rows = nxt
+        if not rows:
             return True
-        # choose variable with the fewest pos*neg products
-        cnt = {}
-        for c, k in cons:
-            for a, v in c.items():
-                p, n = cnt.get(a, (0, 0))
-                cnt[a] = (p + (v > 0), n + (v < 0))
-        x = min(cnt, key=lambda a: cnt[a][0] * cnt[a][1])
-        pos, neg, rest = [], [], []
-        for c, k in cons:
-            v = c.get(x, 0)
-            if v > 0:
-                pos.append((c, k, v))
-            elif v < 0:
-                neg.append((c, k, v))
-            else:
-                rest.append((c, k))
-        new = rest
-        for cp, kp, vp in pos:
-            for cn, kn, vn in neg:
-                # cp/vp + cn/(-vn)
-                co = {}
-                for a, v in cp.items():
-                    if a != x:
-                        co[a] = co.get(a, 0) + Fraction(v) / vp
-                for a, v in cn.items():
-                    if a != x:
-                        co[a] = co.get(a, 0) + Fraction(v) / (-vn)
-                new.append((co, kp / vp + kn / (-vn)))
-        # dedupe
-        seen = set()
-        ded = []
-        for c, k in new:
-            key = (tuple(sorted((a, v) for a, v in c.items() if v != 0)), k)
-            if key not in seen:
-                seen.add(key)
-                ded.append((c, k))
-        if len(ded) > 4000:
+        # pick the variable minimising pos*neg
+        best = None
+        for j in remaining:
+            p = sum(1 for r in rows if r[j] > 0)
+            q = sum(1 for r in rows if r[j] < 0)
+            if p + q == 0:
+                continue
+            cost = p * q
+            if best is None or cost < best[0]:
+                best = (cost, j)
+        if best is None:
+            return True
+        j = best[1]
+        remaining.remove(j)
+        pos = [r for r in rows if r[j] > 0]
+        neg = [r for r in rows if r[j] < 0]
+        new = set(r for r in rows if r[j] == 0)
+        for rp in pos:
+            a = rp[j]
+            for rn in neg:
+                b = -rn[j]
+                row = [b * x + a * y for x, y in zip(rp, rn)]
+                g = 0
+                for v in row:
+                    g = gcd(g, abs(v))
+                if g > 1:
+                    row = [v // g for v in row]
+                new.add(tuple(row))
+        if len(new) > 6000:
             raise Unsupported('FM blow-up')
-        cons = ded
+        rows = new
 
 
 def _ge0(t):
@@ -501,7 +529,7 @@ def equivalent(t1, t2, domain=(), box=None, box_limit=200000):
 
 
 _EQ_CACHE = {}
-PROOF_BUDGET = [6000]     # Fourier-Motzkin feasibility calls per equivalence query
+PROOF_BUDGET = [40000]     # Fourier-Motzkin feasibility calls per equivalence query
 
 
 def _equivalent(t1, t2, domain, box, box_limit):
@@ -514,25 +542,136 @@ def _equivalent(t1, t2, domain, box, box_limit):
     w = find_witness(t1, t2, wdom, ats, box, min(box_limit, 40000))
     if w is not None:
         return ('differ', w)
-    # 2. prove
+    # 2. prove: shared case splitting with simplification under the accumulated constraints
     try:
-        p1 = pieces(t1, domain)
-        p2 = pieces(t2, domain)
-        dom = [_ge0(d) for d in domain]
-        for c1, l1 in p1:
-            for c2, l2 in p2:
-                if l1 == l2:
-                    continue
-                if _feasible(dom + [_ge0(c) for c in c1 + c2]):
-                    # the two linear forms differ on a Q-feasible cell; they may still agree on it (lower-dimensional
-                    # cell): check whether l1 - l2 can be non-zero: feasible with l1-l2 >= 1 or <= -1
-                    d = sub(l1, l2)
-                    if _feasible(dom + [_ge0(c) for c in c1 + c2] + [_ge0(add(d, const(-1)))]) or \
-                            _feasible(dom + [_ge0(c) for c in c1 + c2] + [_ge0(add(scale(d, -1), const(-1)))]):
-                        return ('unknown', 'pieces differ on a rationally feasible cell but no integer witness in the box')
-        return ('equal', 'piece-wise (%d x %d pieces)' % (len(p1), len(p2)))
+        ok = _prove_equal(t1, t2, [_ge0(d) for d in domain])
+        if ok:
+            return ('equal', 'case split + Fourier-Motzkin')
+        return ('unknown', 'the terms differ on a rationally feasible cell but no integer witness was found in the box')
     except Unsupported as e:
         return ('unknown', str(e))
+
+
+def _entails(cons, t):
+    """cons |= (t >= 0)  over Q, checked as infeasibility of cons and (-t - 1 >= 0) over Z-relaxation (t <= -1)."""
+    neg = add(scale(t, -1), const(-1))
+    return not _feasible(cons + [_ge0(neg)])
+
+
+def _simplify(t, cons):
+    """Simplify a term under linear constraints (drop dominated min/max arguments, decide ite conditions)."""
+    if t[0] == 'lin':
+        return t
+    if t[0] in ('min', 'max'):
+        args = [_simplify(a, cons) for a in t[1]]
+        args = _flatten(t[0], args)
+        keep = []
+        for i, a in enumerate(args):
+            dominated = False
+            for j, b in enumerate(args):
+                if i == j or a[0] != 'lin' or b[0] != 'lin':
+                    continue
+                # for min: a dominated if b <= a always (and tie-break by index to keep one of equal terms)
+                d = sub(a, b) if t[0] == 'min' else sub(b, a)
+                if _entails(cons, d) and not (_entails(cons, scale(d, -1)) and j > i):
+                    dominated = True
+                    break
+            if not dominated:
+                keep.append(a)
+        if not keep:
+            keep = args[:1]
+        return _mk_minmax(t[0], keep)
+    if t[0] == 'ite':
+        op, x, y = t[1]
+        x, y = _simplify(x, cons), _simplify(y, cons)
+        a, b = _simplify(t[2], cons), _simplify(t[3], cons)
+        if x[0] == 'lin' and y[0] == 'lin':
+            d = sub(y, x)        # y - x
+            if op == '<':
+                if _entails(cons, add(d, const(-1))):
+                    return a
+                if _entails(cons, scale(d, -1)):
+                    return b
+            elif op == '<=':
+                if _entails(cons, d):
+                    return a
+                if _entails(cons, add(scale(d, -1), const(-1))):
+                    return b
+            elif op in ('==', '!='):
+                eq = _entails(cons, d) and _entails(cons, scale(d, -1))
+                ne = _entails(cons, add(d, const(-1))) or _entails(cons, add(scale(d, -1), const(-1)))
+                if eq:
+                    return a if op == '==' else b
+                if ne:
+                    return b if op == '==' else a
+        return ite((op, x, y), a, b)
+    return t
+
+
+def _pick_split(t, cons=None):
+    """A linear comparison (p, q) to branch on (p <= q vs p > q) that is not yet decided by cons."""
+    def undecided(p, q):
+        if cons is None:
+            return True
+        d = sub(q, p)
+        if d[0] != 'lin':
+            return False
+        if is_const(d):
+            return False
+        return not _entails(cons, d) and not _entails(cons, add(scale(d, -1), const(-1)))
+
+    if t[0] in ('min', 'max'):
+        lins = [a for a in t[1] if a[0] == 'lin']
+        for i in range(len(lins)):
+            for j in range(i + 1, len(lins)):
+                if undecided(lins[i], lins[j]):
+                    return lins[i], lins[j]
+        for a in t[1]:
+            r = _pick_split(a, cons)
+            if r:
+                return r
+    if t[0] == 'ite':
+        op, x, y = t[1]
+        if x[0] == 'lin' and y[0] == 'lin':
+            if op == '<':
+                if undecided(add(x, const(1)), y):
+                    return add(x, const(1)), y
+            elif op == '<=':
+                if undecided(x, y):
+                    return x, y
+            else:
+                if undecided(x, y):
+                    return x, y
+                if undecided(y, x):
+                    return y, x
+        for u in (x, y, t[2], t[3]):
+            r = _pick_split(u, cons)
+            if r:
+                return r
+    return None
+
+
+def _prove_equal(t1, t2, cons, depth=0):
+    if not _feasible(cons):
+        return True
+    a, b = _simplify(t1, cons), _simplify(t2, cons)
+    if a == b:
+        return True
+    if a[0] == 'lin' and b[0] == 'lin':
+        d = sub(a, b)
+        if _feasible(cons + [_ge0(add(d, const(-1)))]) or _feasible(cons + [_ge0(add(scale(d, -1), const(-1)))]):
+            return False
+        return True
+    if depth > 40:
+        raise Unsupported('case split too deep')
+    sp = _pick_split(a, cons) or _pick_split(b, cons)
+    if sp is None:
+        raise Unsupported('no split atom')
+    p, q = sp
+    d = sub(q, p)       # q - p >= 0  <=> p <= q
+    if not _prove_equal(a, b, cons + [_ge0(d)], depth + 1):
+        return False
+    return _prove_equal(a, b, cons + [_ge0(add(scale(d, -1), const(-1)))], depth + 1)
 
 
 def find_witness(t1, t2, domain, ats=None, box=None, box_limit=200000):
